@@ -19,6 +19,11 @@ pub fn step_bound(len: usize) -> u64 { 4096 + 256 * len as u64 }
 
 thread_local! { static IN_CALL: std::cell::Cell<bool> = std::cell::Cell::new(false); }
 
+/// parser events (hook): recorded for every call when switched on; the events of the last call of this thread are kept here
+pub static RECORD_EVENTS: std::sync::atomic::AtomicBool = std::sync::atomic::AtomicBool::new(false);
+thread_local! { pub static LAST_EVENTS: std::cell::RefCell<Vec<String>> = std::cell::RefCell::new(Vec::new()); }
+pub fn last_events() -> Vec<String> { LAST_EVENTS.with(|e| e.borrow().clone()) }
+
 /// panics inside the code under test are data (caught and recorded); panics of the harness itself are printed
 pub fn install_quiet_panic_hook() {
     let default = std::panic::take_hook();
@@ -42,6 +47,8 @@ pub fn call(e: &str, expr: &str, ph: &Val) -> (Outcome, Ticks) {
     let len = expr.chars().count();
     let s = expr.to_string();
     hooks::arm(step_bound(len) + 1);
+    let rec = RECORD_EVENTS.load(std::sync::atomic::Ordering::Relaxed);
+    if rec { hooks::record_events(true); }
     IN_CALL.with(|c| c.set(true));
     let r = catch_unwind(AssertUnwindSafe(|| -> Result<Val, String> {
         match (e, ph) {
@@ -54,6 +61,7 @@ pub fn call(e: &str, expr: &str, ph: &Val) -> (Outcome, Ticks) {
         }
     }));
     IN_CALL.with(|c| c.set(false));
+    if rec { let ev = hooks::take_events(); hooks::record_events(false); LAST_EVENTS.with(|e| *e.borrow_mut() = ev); }
     let c = hooks::read();
     hooks::reset();
     let t = Ticks { lex: c.lex, parse: c.parse, eval: c.eval, loops: c.loops };
